@@ -358,7 +358,9 @@ def gen_calls(rng, tier):
     # ---- every diagnostics-returning method x diagnostics replies (incl. body code / status disagreements) ----
     for op in sorted(DIAG_OPS):
         for f in [R_resp(400, "j", 400, 1), R_resp(400, "j", 400, 4), R_resp(422, "j", 400, 1), R_resp(409, "j", 400, 2),
-                  R_resp(400, "j", None, 1), R_resp(400, "j", 409, 1), R_resp(404, "j", 404, 1), R_resp(499, "j", 400, 1)]:
+                  R_resp(400, "j", None, 1), R_resp(400, "j", 409, 1), R_resp(404, "j", 404, 1), R_resp(499, "j", 400, 1),
+                  # long diagnostic lists: bodies of ~8 KB, ~90 KB and ~1.3 MB are still diagnostics, not failures
+                  R_resp(400, "j", 400, 500), R_resp(400, "j", 400, 5000), R_resp(400, "j", 400, 70000)]:
             for tok in (b"tok", b""):
                 s, n = mk_args(rng, op, pool=PLAIN + ODD_VALID)
                 calls.append(call(op, s, n, tok, [], f))
